@@ -301,6 +301,10 @@ func genRPC(c *Chooser, o ScenOpts) *RPCPlan {
 		}
 	}
 	cp.Headers = genHeaderSet(c, c.Intn(3))
+	if form == FormConnectGet && c.Prob(0.3) {
+		// a GET may name the protocol version in a header as well as (or instead of, see C19) in the query
+		cp.ExtraHdrs = append(cp.ExtraHdrs, [2]string{"Connect-Protocol-Version", "1"})
+	}
 	sch := getSchema("sim")
 	md := sch.method(m.Name)
 	mo := &MsgGenOpts{MaxDepth: 2, MaxBytes: maxInt(o.MaxBytes, 64), SingleEntry: true}
